@@ -840,6 +840,16 @@ impl<'a> WriteTxn<'a> {
                 })?;
             }
 
+            // Edge tombstones are logged before edge creations: the run only keeps edges
+            // created after the last tombstone of their key, and replay re-applies
+            // `tombstone_edge` (which drops earlier copies) in log order.
+            for edge in run.iter_tombstoned_edges() {
+                wal.append(&WalRecord::TombstoneEdge {
+                    src: edge.src,
+                    rel: edge.rel,
+                    dst: edge.dst,
+                })?;
+            }
             for edge in run.iter_edges() {
                 wal.append(&WalRecord::CreateEdge {
                     src: edge.src,
@@ -849,13 +859,6 @@ impl<'a> WriteTxn<'a> {
             }
             for node in run.iter_tombstoned_nodes() {
                 wal.append(&WalRecord::TombstoneNode { node })?;
-            }
-            for edge in run.iter_tombstoned_edges() {
-                wal.append(&WalRecord::TombstoneEdge {
-                    src: edge.src,
-                    rel: edge.rel,
-                    dst: edge.dst,
-                })?;
             }
 
             // Write property operations
